@@ -10,7 +10,7 @@ import progstream as P
 from gen.programs import INT, BOOL, STR, FLOAT, VOID, tup, fn, iter_of, arr, cell, multi
 from vlib import sexp_parse, sexp_str, strip_tags
 
-THM_MODULES = ["SslModel.Thm.C11", "SslModel.Thm.C11Pipe", "SslModel.Thm.C11Iter"]
+THM_MODULES = ["SslModel.Thm.C11", "SslModel.Thm.C11Pipe", "SslModel.Thm.C11Iter", "SslModel.Thm.C11Chain"]
 TRANSLATE_PARTS = ["scalar"]
 
 I = lambda n: ("i", n)
